@@ -91,7 +91,7 @@ def run(ctx):
         bad = tv.tagged.get("@@BAD", [])
         for b in bad:
             c = cases.get(b["n"], {})
-            sig = ("kf:" if b["reason"] == "size-retention-counts-superseded" else "illegal-reload:") + b["reason"]
+            sig = "illegal-reload:" + b["reason"]
             ctx.add_violation("behaviour %s step %s: the real reload left %s: %s" % (c.get("beh"), c.get("step"), b["after"], b["reason"]), sig, c)
         ctx.log("Trace_Retention: %d real reload outcomes judged, %d illegal" % (ntr, len(bad)))
         if tv.distinct < ntr:
